@@ -302,6 +302,48 @@ def r3_traversal(ctx, prog):
             r.inst("ParsedValue::merge", "reduce() dominates every index_strings call (%d)" % len(idx))
         else:
             r.viol("R3:ParsedValue::merge#reduce-first", "an index_strings call in merge is not preceded by reduce(): unresolved foreign keys would keep unindexed literals", file=b.file, line=b.line)
+    # every successful merge of a renderable value against a plain key indexes its strings (all paths of the MIR body)
+    if b is not None:
+        import mirsum
+        ps = mirsum.paths(prog, b, depth=0, max_paths=400)
+        if ps is None:
+            r.viol("R3:ParsedValue::merge#paths", "merge has loops or too many paths to enumerate", file=b.file, line=b.line)
+        else:
+            def variant_of(conds, term):
+                iss = {c[2] for c in conds if c[0] == "is" and c[1] == term}
+                nots = set()
+                for c in conds:
+                    if c[0] == "not" and c[1] == term:
+                        nots |= set(c[2].split("|"))
+                if len(iss) > 1 or iss & nots:
+                    return "<infeasible>"
+                return next(iter(iss)) if iss else "not " + "|".join(sorted(nots))
+
+            def rooted_at_p1(t):
+                while isinstance(t, tuple) and t and t[0] in ("field", "downcast", "proj"):
+                    t = t[2]
+                return t == ("p", 1)
+            n_ok, bad = 0, []
+            for conds, trace, ret in ps:
+                terms = {c[1] for c in conds if c[0] in ("is", "not")}
+                if any(variant_of(conds, t) == "<infeasible>" for t in terms):
+                    continue
+                v1 = variant_of(conds, ("p", 1))
+                v2 = variant_of(conds, ("p", 2))
+                if v1 in ("Default", "Subkeys") or v2 != "Value":
+                    continue
+                if isinstance(ret, tuple) and ((ret[0] == "adt" and ret[2] == "Err") or ret[0] == "diverges"):
+                    continue
+                if any(c[0] == "call" and c[1].endswith("::index_strings") and c[2] and rooted_at_p1(c[2][0]) for c in trace):
+                    n_ok += 1
+                else:
+                    bad.append("self is %s: [%s] => %s" % (v1, " & ".join(mirsum.fmt(c) for c in conds), mirsum.fmt(ret)))
+            if bad:
+                r.viol("R3:ParsedValue::merge#unindexed-path", "a value is merged successfully without its strings being indexed (they keep index usize::MAX and never enter the locale's table): %s" % "; ".join(sorted(set(bad))[:2]), file=b.file, line=b.line)
+            elif n_ok:
+                r.inst("ParsedValue::merge#all-paths", "%d feasible successful paths for a renderable value against a plain key: each calls index_strings on the value" % n_ok)
+            else:
+                r.viol("R3:ParsedValue::merge#paths", "no successful path found for a renderable value", file=b.file, line=b.line)
     b0 = prog.body("locale::Locale::make_builder_keys")
     if b0 is not None:
         # the function and the closures it owns: within each body that calls make_locale_value, reduce() comes first
